@@ -8,6 +8,7 @@ import (
 	"time"
 
 	"verif/harness/internal/ev"
+	"verif/harness/internal/fx"
 	"verif/harness/internal/s3c"
 )
 
@@ -199,5 +200,131 @@ func laneRefusedOwnerChange(c *ev.Ctx, extraEnv []string) {
 			}
 		}
 		c.Distinct("owner|refused|" + target)
+	}
+}
+
+// Create-again lane: a CreateBucket for a name that is taken is answered the same by the proxy and by the reference
+// gateway, and - being refused - changes nothing on either: the bucket is still there, still listed, still owned by
+// whom it was, still holds what it held, still takes a write. Buckets in four states (empty, holding an object,
+// holding only an upload in progress, owned by another account) are created again in four ways.
+func laneCreateAgain(c *ev.Ctx, extraEnv []string) {
+	if !c.Want("again") {
+		return
+	}
+	p, err := newProg(c, "again", 13, extraEnv)
+	if err != nil {
+		c.Inconclusive("gateway start (create-again lane): " + firstLine(err.Error()))
+		return
+	}
+	defer p.close()
+	for _, e := range []*fx.Env{p.envP, p.envD} {
+		if r := e.CreateUser("dora", "dora-secret-1", "userplus", 0, 0); r.Status != 201 && r.Status != 200 {
+			c.Inconclusive("create-again lane: create user: " + r.String())
+			return
+		}
+	}
+	type look struct{ head, listed, get, put, owner string }
+	observe := func(s *side, b string, hasObj bool) look {
+		var l look
+		l.head = fmt.Sprint(s.cl.Sub("HEAD", b, "", "", nil).Status)
+		lb := s.cl.Sub("GET", "", "", "", nil)
+		l.listed = fmt.Sprint(lb.Status, " ", strings.Contains(string(lb.Body), "<Name>"+b+"</Name>"))
+		if hasObj {
+			g := s.cl.GetObject(b, "kept")
+			l.get = fmt.Sprint(g.Status, " ", len(g.Body))
+		}
+		a := s.cl.Sub("GET", b, "", "acl=", nil)
+		l.owner = fmt.Sprint(a.Status)
+		if i := strings.Index(string(a.Body), "<Owner><ID>"); i >= 0 {
+			rest := string(a.Body)[i+len("<Owner><ID>"):]
+			if j := strings.Index(rest, "</ID>"); j >= 0 {
+				l.owner += " " + rest[:j]
+			}
+		}
+		pr := s.cl.PutObject(b, "written-after", []byte("after"))
+		l.put = fmt.Sprint(pr.Status)
+		s.cl.DeleteObject(b, "written-after")
+		return l
+	}
+	ways := []struct {
+		name string
+		as   string
+		hdr  []string
+	}{
+		{"plain", "root", nil},
+		{"with-ownership", "root", []string{"x-amz-object-ownership", "BucketOwnerPreferred"}},
+		{"with-acl", "root", []string{"x-amz-object-ownership", "BucketOwnerPreferred", "x-amz-acl", "public-read"}},
+		{"by-another-account", "dora", nil},
+	}
+	n := 0
+	for _, state := range []string{"empty", "holding-an-object", "holding-an-upload", "owned-by-another-account"} {
+		for _, w := range ways {
+			n++
+			id := fmt.Sprintf("again/%s/%s", state, w.name)
+			if !c.Want(id) {
+				continue
+			}
+			b := fmt.Sprintf("again-%d", n)
+			ready := true
+			for _, s := range []*side{p.P, p.D} {
+				cl := s.cl
+				if state == "owned-by-another-account" {
+					cl = cl.With("dora", "dora-secret-1")
+				}
+				if r := cl.CreateBucket(b); !r.OK() {
+					ready = false
+				}
+				switch state {
+				case "holding-an-object":
+					ready = ready && s.cl.PutObject(b, "kept", []byte("kept bytes")).OK()
+				case "holding-an-upload":
+					ready = ready && s.cl.Sub("POST", b, "pending", "uploads=", nil).OK()
+				}
+			}
+			if !ready {
+				c.Inconclusive("create-again lane: preparing " + id)
+				continue
+			}
+			hasObj := state == "holding-an-object"
+			var before, after [2]look
+			var ans [2]*s3c.Resp
+			for i, s := range []*side{p.P, p.D} {
+				before[i] = observe(s, b, hasObj)
+				cl := s.cl
+				if w.as == "dora" {
+					cl = cl.With("dora", "dora-secret-1")
+				}
+				ans[i] = cl.CreateBucket(b, w.hdr...)
+				after[i] = observe(s, b, hasObj)
+			}
+			c.Eval(1)
+			if ans[0].Err != nil || ans[1].Err != nil {
+				c.Inconclusive("create-again lane: transport error")
+				continue
+			}
+			det := map[string]any{"bucket_state": state, "created_again": w.name, "proxy_answer": ans[0].String(), "reference_answer": ans[1].String(),
+				"proxy_before": fmt.Sprintf("%+v", before[0]), "proxy_after": fmt.Sprintf("%+v", after[0]), "reference_before": fmt.Sprintf("%+v", before[1]), "reference_after": fmt.Sprintf("%+v", after[1])}
+			if before[0] != before[1] {
+				// the two sides differ before anything was asked: not this lane's subject
+				c.Observe("again|differs-before|" + state)
+				continue
+			}
+			bad := false
+			if ans[0].Status != ans[1].Status || ans[0].ErrCode() != ans[1].ErrCode() {
+				bad = true
+				c.Violation(fmt.Sprintf("create-again:answers-differ:%s:%s:%d-%s-vs-%d-%s", state, w.name, ans[0].Status, ans[0].ErrCode(), ans[1].Status, ans[1].ErrCode()), id, det)
+			}
+			if after[0] != after[1] {
+				bad = true
+				c.Violation("create-again:bucket-differs-afterwards:"+state, id, det)
+			}
+			if !ans[0].OK() && after[0] != before[0] {
+				bad = true
+				c.Violation("create-again:refused-but-bucket-changed:"+state, id, det)
+			}
+			if !bad {
+				c.Distinct(fmt.Sprintf("again|%s|%s|%d", state, w.name, ans[0].Status))
+			}
+		}
 	}
 }
